@@ -491,7 +491,7 @@ func (x *Exec) callByContract(st *State, fr *Frame, callee *ssa.Function, c *Con
 		da := st.fresh("failed_any", SBool)
 		st.assume(tEq(da, tOr(ds...)))
 		// a callee that cannot reach a caller-supplied dependency cannot see one fail
-		if sum := x.fnEffects(callee, map[*ssa.Function]bool{}); !sum.ghost && !sum.unknown && !c.Trusted {
+		if sum := x.fnEffects(callee, map[*ssa.Function]bool{}); !sum.deps && !c.Trusted {
 			st.assume(tNot(da))
 		}
 		st.ghost["failed:any"] = TV{SBool, da}
